@@ -21,6 +21,7 @@ ndim_max = 3
 # TODO: With python 3.10, use strict=True zip kwarg
 sparse_array_imath = """
 def __i{name}__(self, other):
+    if self.read_only: raise ValueError('assignment destination is read-only')
     if other.__class__ is SparseArray:
         rows = self.rows
         other_rows = other.rows
@@ -542,7 +543,14 @@ class SparseArray:
         new.rows = rows
         return new
     
+    @property
+    def read_only(self):
+        for i in self.rows:
+            if i.read_only: return True
+        return False
+    
     def clear(self):
+        if self.read_only: raise ValueError('assignment destination is read-only')
         for i in self.rows: i.set.clear()
     
     def copy(self):
@@ -700,6 +708,7 @@ class SparseArray:
         return arr
         
     def from_flat_array(self, arr):
+        if self.read_only: raise ValueError('assignment destination is read-only')
         rows = self.rows
         vector_size = self.vector_size
         dtype = self.dtype
@@ -807,6 +816,7 @@ class SparseArray:
                 return value
     
     def __setitem__(self, index, value):
+        if self.read_only: raise ValueError('assignment destination is read-only')
         rows = self.rows
         value, vd, _ = reduce_ndim(value)
         if index.__class__ is tuple:
@@ -1411,6 +1421,7 @@ class SparseVector:
             raise TypeError(f'cannot convert {type(obj).__name__} object to a sparse array')
     
     def mix_from(self, others):
+        if self.read_only: raise ValueError('assignment destination is read-only')
         if others: 
             other_dcts = [i.dct for i in others]
             dct = self.dct
@@ -1507,6 +1518,7 @@ class SparseVector:
             return dct.get(index, 0.)
     
     def remove_negatives(self):
+        if self.read_only: raise ValueError('assignment destination is read-only')
         dct = self.dct
         for i in tuple(dct): 
             if dct[i] < 0.: del dct[i]
@@ -1605,6 +1617,7 @@ class SparseVector:
         return SparseVector.from_dict(self.dct.copy(), self.size)
     
     def copy_like(self, other):
+        if self.read_only: raise ValueError('assignment destination is read-only')
         dct = self.dct
         if dct is other.dct: return
         dct.clear()
@@ -2493,11 +2506,12 @@ class SparseVector:
     
 class SparseLogicalVector:
     __doc__ = sparse.__doc__
-    __slots__ = ('set', 'size')
+    __slots__ = ('set', 'read_only', 'size')
     ndim = 1
     dtype = bool
     
     def __init__(self, obj=None, size=None):
+        self.read_only = False
         if obj is None:
             self.set = set()
             if size is None: raise ValueError('must pass size if no object given')
@@ -2568,7 +2582,10 @@ class SparseLogicalVector:
         new = cls.__new__(cls)
         new.set = set
         new.size = size
+        new.read_only = False
         return new
+    
+    setflags = SparseVector.setflags
     
     def remove_negatives(self): pass
     
@@ -2661,6 +2678,7 @@ class SparseLogicalVector:
         return SparseLogicalVector.from_set(self.set.copy(), self.size)
     
     def copy_like(self, other):
+        if self.read_only: raise ValueError('assignment destination is read-only')
         set = self.set
         if set is other.set: return
         set.clear()
@@ -2691,6 +2709,7 @@ class SparseLogicalVector:
             return True if index in set else False
 
     def __setitem__(self, index, value):
+        if self.read_only: raise ValueError('assignment destination is read-only')
         set = self.set
         if index.__class__ is tuple:
             index, = unpack_index(index, self.ndim)
@@ -2757,12 +2776,12 @@ class SparseLogicalVector:
     exec(sparse_logical_vector_math_pseudo_optimized.format(name='and'))
     exec(sparse_logical_vector_math_pseudo_optimized.format(name='xor'))
     exec(sparse_logical_vector_math_pseudo_optimized.format(name='or'))
-    exec(sparse_vector_imath.format(name='add', read_only=not_read_only))
-    exec(sparse_vector_imath.format(name='mul', read_only=not_read_only))
-    exec(sparse_vector_imath.format(name='truediv', read_only=not_read_only))
-    exec(sparse_vector_imath.format(name='and', read_only=not_read_only))
-    exec(sparse_vector_imath.format(name='xor', read_only=not_read_only))
-    exec(sparse_vector_imath.format(name='or', read_only=not_read_only))
+    exec(sparse_vector_imath.format(name='add', read_only=read_only))
+    exec(sparse_vector_imath.format(name='mul', read_only=read_only))
+    exec(sparse_vector_imath.format(name='truediv', read_only=read_only))
+    exec(sparse_vector_imath.format(name='and', read_only=read_only))
+    exec(sparse_vector_imath.format(name='xor', read_only=read_only))
+    exec(sparse_vector_imath.format(name='or', read_only=read_only))
     exec(sparse_logical_vector_scalar_array_comparison.format(name='eq', sign='=='))
     exec(sparse_logical_vector_scalar_array_comparison.format(name='ne', sign='!='))
     exec(sparse_logical_vector_scalar_array_comparison.format(name='gt', sign='>'))
